@@ -1,4 +1,5 @@
 import HqModel.Lemmas.AllocShape
+import HqModel.Lemmas.AllocInv
 /-!
 What a successful `tryAllocate` returns, per request entry: exactly the requested amount, whole indices first, at
 most one fractional entry and it is last.
@@ -11,6 +12,8 @@ def Pool.tag : Pool → Nat
   | .indices _ _ => 1
   | .groups _ _ => 2
   | .sum _ _ => 3
+
+def Pool.ngroups (p : Pool) : Nat := p.groupsOf.length
 
 /-- `ra` is an exact answer to entry `e` on a pool with tag `tag` and size `full` -/
 def ExactFor (tag full : Nat) (e : Entry) (ra : RAlloc) : Prop :=
@@ -34,7 +37,7 @@ theorem claimAllAux_whole (gid : Nat) (gs : List Group) : WholeOnly (claimAllAux
 
 theorem Pool.claim_exact {p p' : Pool} {e : Entry} {pick : Option Nat} {ra : RAlloc}
     (h : p.claim e pick = .ok (p', ra)) :
-    ExactFor p.tag p.fullSize e ra ∧ p'.tag = p.tag ∧ p'.fullSize = p.fullSize := by
+    ExactFor p.tag p.fullSize e ra ∧ p'.tag = p.tag ∧ p'.fullSize = p.fullSize ∧ p'.ngroups = p.ngroups := by
   cases p with
   | empty => simp [Pool.claim] at h
   | indices full g =>
@@ -47,7 +50,7 @@ theorem Pool.claim_exact {p p' : Pool} {e : Entry} {pick : Option Nat} {ra : RAl
       · rename_i g2 acc2 h2
         simp only [Except.ok.injEq, Prod.mk.injEq] at h
         obtain ⟨rfl, rfl⟩ := h
-        refine ⟨⟨rfl, rfl, .inr (.inl ⟨rfl, ?_⟩)⟩, rfl, rfl⟩
+        refine ⟨⟨rfl, rfl, .inr (.inl ⟨rfl, ?_⟩)⟩, rfl, rfl, rfl⟩
         obtain ⟨ws, hw, hl, hacc1, -, -⟩ := takeIndices_shape h1
         rcases takeFracOrSplit_shape h2 with ⟨h0, hacc2, -⟩ | ⟨hne, f, hf, -, hacc2⟩
         · exact ⟨ws, hw, hl, .inl ⟨h0, by simp [hacc2, hacc1]⟩⟩
@@ -66,23 +69,26 @@ theorem Pool.claim_exact {p p' : Pool} {e : Entry} {pick : Option Nat} {ra : RAl
         simp only [Except.ok.injEq, Prod.mk.injEq] at h
         obtain ⟨rfl, rfl⟩ := h
         refine ⟨⟨rfl, by simp [Entry.amountOr, hpol], .inr (.inr (.inl ⟨rfl, by simp [hpol], claimScatter_shape hc⟩))⟩,
-          rfl, rfl⟩
+          rfl, rfl, (claimScatter_claims hc).length_eq⟩
     · rename_i hpol
       simp only [Except.ok.injEq, Prod.mk.injEq] at h
       obtain ⟨rfl, rfl⟩ := h
+      have hlen : (claimAllAux 0 gs).1.length = gs.length := by
+        have c := claimAllAux_claims [] gs []
+        simpa using c.length_eq
       refine ⟨⟨rfl, by simp [Entry.amountOr, hpol, Pool.fullSize], .inr (.inr (.inr ⟨rfl, hpol, claimAllAux_whole 0 gs⟩))⟩,
-        rfl, rfl⟩
+        rfl, rfl, hlen⟩
   | sum full free =>
     simp only [Pool.claim] at h
     split at h
     · cases h
     · simp only [Except.ok.injEq, Prod.mk.injEq] at h
       obtain ⟨rfl, rfl⟩ := h
-      exact ⟨⟨rfl, rfl, .inl ⟨rfl, rfl⟩⟩, rfl, rfl⟩
+      exact ⟨⟨rfl, rfl, .inl ⟨rfl, rfl⟩⟩, rfl, rfl, rfl⟩
 
 theorem Pool.claimWithMask_exact {p p' : Pool} {e : Entry} {set : List Nat} {pick : Option Nat} {ra : RAlloc}
     (h : p.claimWithMask e set pick = .ok (p', ra)) :
-    ExactFor p.tag p.fullSize e ra ∧ p'.tag = p.tag ∧ p'.fullSize = p.fullSize := by
+    ExactFor p.tag p.fullSize e ra ∧ p'.tag = p.tag ∧ p'.fullSize = p.fullSize ∧ p'.ngroups = p.ngroups := by
   cases p with
   | groups full gs =>
     simp only [Pool.claimWithMask] at h
@@ -94,7 +100,7 @@ theorem Pool.claimWithMask_exact {p p' : Pool} {e : Entry} {set : List Nat} {pic
         simp only [Except.ok.injEq, Prod.mk.injEq] at h
         obtain ⟨rfl, rfl⟩ := h
         exact ⟨⟨rfl, by simp [Entry.amountOr, hpol], .inr (.inr (.inl ⟨rfl, by simp [hpol], claimScatter_shape hc⟩))⟩,
-          rfl, rfl⟩
+          rfl, rfl, (claimScatter_claims hc).length_eq⟩
     · rename_i hpol
       split at h
       · cases h
@@ -102,7 +108,7 @@ theorem Pool.claimWithMask_exact {p p' : Pool} {e : Entry} {set : List Nat} {pic
         simp only [Except.ok.injEq, Prod.mk.injEq] at h
         obtain ⟨rfl, rfl⟩ := h
         exact ⟨⟨rfl, by simp [Entry.amountOr, hpol], .inr (.inr (.inl ⟨rfl, by simp [hpol], claimScatter_shape hc⟩))⟩,
-          rfl, rfl⟩
+          rfl, rfl, (claimScatter_claims hc).length_eq⟩
     · rename_i hpol
       split at h
       · cases h
@@ -110,7 +116,7 @@ theorem Pool.claimWithMask_exact {p p' : Pool} {e : Entry} {set : List Nat} {pic
         simp only [Except.ok.injEq, Prod.mk.injEq] at h
         obtain ⟨rfl, rfl⟩ := h
         exact ⟨⟨rfl, by simp [Entry.amountOr, hpol], .inr (.inr (.inl ⟨rfl, by simp [hpol], claimTight_shape hc⟩))⟩,
-          rfl, rfl⟩
+          rfl, rfl, (claimTight_claims hc).length_eq⟩
     · rename_i hpol
       split at h
       · cases h
@@ -118,7 +124,7 @@ theorem Pool.claimWithMask_exact {p p' : Pool} {e : Entry} {set : List Nat} {pic
         simp only [Except.ok.injEq, Prod.mk.injEq] at h
         obtain ⟨rfl, rfl⟩ := h
         exact ⟨⟨rfl, by simp [Entry.amountOr, hpol], .inr (.inr (.inl ⟨rfl, by simp [hpol], claimTight_shape hc⟩))⟩,
-          rfl, rfl⟩
+          rfl, rfl, (claimTight_claims hc).length_eq⟩
     · cases h
     · cases h
   | empty => simp [Pool.claimWithMask] at h
@@ -127,20 +133,22 @@ theorem Pool.claimWithMask_exact {p p' : Pool} {e : Entry} {set : List Nat} {pic
 
 /-- pool vectors with the same kinds and sizes -/
 def SameKinds (a b : List Pool) : Prop :=
-  a.length = b.length ∧ ∀ (rid : Nat) (p q : Pool), a[rid]? = some p → b[rid]? = some q → q.tag = p.tag ∧ q.fullSize = p.fullSize
+  a.length = b.length ∧ ∀ (rid : Nat) (p q : Pool), a[rid]? = some p → b[rid]? = some q →
+    q.tag = p.tag ∧ q.fullSize = p.fullSize ∧ q.ngroups = p.ngroups
 
 theorem SameKinds.refl (a : List Pool) : SameKinds a a :=
-  ⟨rfl, fun _ p q hp hq => by rw [hp] at hq; cases hq; exact ⟨rfl, rfl⟩⟩
+  ⟨rfl, fun _ p q hp hq => by rw [hp] at hq; cases hq; exact ⟨rfl, rfl, rfl⟩⟩
 
 theorem SameKinds.set {a b : List Pool} {rid : Nat} {p p' : Pool} (h : SameKinds a b) (hp : b[rid]? = some p)
-    (ht : p'.tag = p.tag) (hf : p'.fullSize = p.fullSize) : SameKinds a (b.set rid p') := by
+    (ht : p'.tag = p.tag) (hf : p'.fullSize = p.fullSize) (hn : p'.ngroups = p.ngroups) :
+    SameKinds a (b.set rid p') := by
   refine ⟨by simp [h.1], fun r x y hx hy => ?_⟩
   by_cases hr : r = rid
   · subst hr
     simp [lt_length_of_getElem? hp] at hy
     subst hy
-    obtain ⟨t, f⟩ := h.2 r x p hx hp
-    exact ⟨by rw [ht, t], by rw [hf, f]⟩
+    obtain ⟨t, f, n⟩ := h.2 r x p hx hp
+    exact ⟨by rw [ht, t], by rw [hf, f], by rw [hn, n]⟩
   · rw [List.getElem?_set_ne (by omega)] at hy
     exact h.2 r x y hx hy
 
@@ -168,8 +176,8 @@ theorem claimPlain_exact {pools₀ : List Pool} {picks : Choices} {pools pools' 
       · split at h
         · cases h
         · rename_i pool' ra hc
-          obtain ⟨hex, ht, hf⟩ := Pool.claim_exact hc
-          refine ih h (hk.set hp ht hf) hsub' ?_
+          obtain ⟨hex, ht, hf, hn⟩ := Pool.claim_exact hc
+          refine ih h (hk.set hp ht hf hn) hsub' ?_
           intro ra' hra'
           rcases List.mem_append.mp hra' with hra' | hra'
           · exact hal ra' hra'
@@ -177,7 +185,7 @@ theorem claimPlain_exact {pools₀ : List Pool} {picks : Choices} {pools pools' 
             obtain ⟨p₀, hp₀⟩ : ∃ p₀, pools₀[e.rid]? = some p₀ := by
               have : e.rid < pools₀.length := by rw [hk.1]; exact lt_length_of_getElem? hp
               exact ⟨pools₀[e.rid], by simp [this]⟩
-            obtain ⟨t, f⟩ := hk.2 e.rid p₀ pool hp₀ hp
+            obtain ⟨t, f, -⟩ := hk.2 e.rid p₀ pool hp₀ hp
             exact ⟨e, hsub e (by simp), p₀, hp₀, by rw [← t, ← f]; exact hex⟩
 
 theorem claimCoupled_exact {pools₀ : List Pool} {picks : Choices} {pools pools' : List Pool} {es : List Entry}
@@ -205,8 +213,8 @@ theorem claimCoupled_exact {pools₀ : List Pool} {picks : Choices} {pools pools
         split at h
         · cases h
         · rename_i pool' ra hc
-          obtain ⟨hex, ht, hf⟩ := Pool.claimWithMask_exact hc
-          refine ih h (hk.set hp ht hf) hsub' ?_
+          obtain ⟨hex, ht, hf, hn⟩ := Pool.claimWithMask_exact hc
+          refine ih h (hk.set hp ht hf hn) hsub' ?_
           intro ra' hra'
           rcases List.mem_append.mp hra' with hra' | hra'
           · exact hal ra' hra'
@@ -214,7 +222,7 @@ theorem claimCoupled_exact {pools₀ : List Pool} {picks : Choices} {pools pools
             obtain ⟨p₀, hp₀⟩ : ∃ p₀, pools₀[e.rid]? = some p₀ := by
               have : e.rid < pools₀.length := by rw [hk.1]; exact lt_length_of_getElem? hp
               exact ⟨pools₀[e.rid], by simp [this]⟩
-            obtain ⟨t, f⟩ := hk.2 e.rid p₀ pool hp₀ hp
+            obtain ⟨t, f, -⟩ := hk.2 e.rid p₀ pool hp₀ hp
             exact ⟨e, hsub e (by simp), p₀, hp₀, by rw [← t, ← f]; exact hex⟩
 
 theorem normalize_perm' (al : Allocation) : (normalize al).Perm al := by
